@@ -169,11 +169,13 @@ def const_body(c):
         if op in ("grad", "value_and_grad", "hessian", "make_hvp", "grad_and_aux"):
             op = "make_vjp"
     nested = c.choice(["no", "no", "rev", "fwd"])  # evaluate inside an outer differentiation whose variable scales the output
+    # ... optionally after another inner differentiation (reverse or forward mode) failed part-way and was caught there
+    prior = c.choice(["none", "none", "failed_rev", "failed_fwd"]) if nested != "no" else "none"
     f = make_const_fn(dep, outk)
     mult = [1.0]
     fa = lambda v: f(v, anp, ab, mult[0])
     y0 = f(x, onp, ab)
-    sample = {"arg": argk, "out": outk, "dep": dep, "op": op, "nested": nested, "vseed": vseed}
+    sample = {"arg": argk, "out": outk, "dep": dep, "op": op, "nested": nested, "prior": prior, "vseed": vseed}
     bucket = lambda k: f"C14|const|{op}|{k}"
     zx = zeros_like_tree(x)
     zy = zeros_like_tree(y0)
@@ -238,8 +240,25 @@ def const_body(c):
             else:
                 cap = {}
 
+                class _Stop(Exception):
+                    pass
+
+                def failing(y):
+                    t = anp.sin(y) * z_[0]
+                    if t == t:
+                        raise _Stop()
+                    return t
+
+                z_ = [None]
+
                 def outer(z):
                     mult[0] = z
+                    z_[0] = z
+                    if prior != "none":
+                        try:
+                            autograd.grad(failing)(0.3) if prior == "failed_rev" else autograd.make_jvp(failing)(0.3)(1.0)
+                        except _Stop:
+                            pass
                     try:
                         cap["res"] = run_op()
                     finally:
@@ -268,8 +287,8 @@ def const_body(c):
     fwd = op in ("make_jvp", "deriv", "make_jvp_reversemode")
     c.features.update(sample)
     return ok(nontrivial=container_arg or fwd or dep.startswith("nograd") or nested != "no" or dep == "where_cond",
-              key=json.dumps([argk, outk, dep, op, nested]),
-              labels=["arg=" + argk, "out=" + outk, "dep=" + dep, "op=" + op, "nested=" + nested], sample=sample)
+              key=json.dumps([argk, outk, dep, op, nested, prior]),
+              labels=["arg=" + argk, "out=" + outk, "dep=" + dep, "op=" + op, "nested=" + nested, "prior=" + prior], sample=sample)
 
 
 def tangent_like(x, vseed):
